@@ -152,6 +152,9 @@ def run_case(case):
         fam.d.update(wind="const", veer=0.0, kx_const=True, ex=0.0, ey=float(rng.uniform(-0.3, 0.3)))
         if fam.d["K"] == "const":
             fam.d["K"] = "linear"
+    if case["idx"] % 8 == 1 and not case.get("closure"):
+        # wind exactly along a grid axis at every height (one wind component identically zero), no veering
+        fam.d.update(theta=[0.0, 0.5 * np.pi, 0.0, np.pi][(case["idx"] // 8) % 4], veer=0.0)
     gridk = str(rng.choice(["uniform", "geometric", "expmap"]))
     n0 = int(rng.choice([8, 16, 32]))
     if case.get("closure"):
@@ -197,7 +200,14 @@ def run_case(case):
     Es, deltas = [], []
     ref = None
     q0 = np.zeros((ny, nx))
-    q0[0, 0] = 1.0
+    # a unit source in one cell: at the origin, or (half of the cases) in any other cell - its spectrum is then a phase ramp, not even in
+    # either wavenumber, and every component of the response carries that phase
+    j0, i0 = (0, 0) if case["idx"] % 2 == 0 else (int(rng.integers(ny)), int(rng.integers(nx)))
+    q0[j0, i0] = 1.0
+    ramp = np.exp(-2j * np.pi * (np.fft.fftfreq(nx, 1.0 / nx)[None, :] * i0 / nx + np.fft.fftfreq(ny, 1.0 / ny)[:, None] * j0 / ny))
+    # half of the fine-cell cases (strongly damped components, three output levels) ask for single-precision output
+    prec = "single" if case["idx"] % 6 == 3 else "double"
+    allow = []
     for mult in mults:
         n = n0 * mult
         z = gen.vgrid(gridk, z0, ztop, n)
@@ -214,11 +224,15 @@ def run_case(case):
         # the three heights are requested in rotated order (top, bottom, interior): a slice returned under the wrong label is an
         # O(1) error that no refinement removes
         rot = [2, 0, 1] if len(lv) == 3 else list(range(len(lv)))
-        _, c, f = S(q0, z, prof, dom, [lv[i] for i in rot], modes=(nx, ny), halo=0.0, precision="double")
+        _, c, f = S(q0, z, prof, dom, [lv[i] for i in rot], modes=(nx, ny), halo=0.0, precision=prec)
         back = np.argsort(rot)
-        c, f = np.asarray(c)[back], np.asarray(f)[back]
-        Hp = np.fft.fft2(c, norm="forward") * (nx * ny)
-        Hq = np.fft.fft2(f, norm="forward") * (nx * ny)
+        c, f = np.asarray(c, dtype=float)[back], np.asarray(f, dtype=float)[back]
+        # single precision stores the fields in 32 bits: a rounding of 6e-8 of the field maximum per cell, at most N times that in a
+        # component of the (N-scaled) spectrum
+        eps_store = 0.0 if prec == "double" else 4 * nx * ny * 6e-8
+        allow.append((eps_store * float(np.max(np.abs(c))) / float(np.min(np.abs(ref[0][0]))), eps_store * float(np.max(np.abs(f)))))
+        Hp = np.fft.fft2(c, norm="forward") * (nx * ny) / ramp
+        Hq = np.fft.fft2(f, norm="forward") * (nx * ny) / ramp
         Hp, Hq = Hp[:, ok][:, good], Hq[:, ok][:, good]
         rp, rq = ref
         norm_p = np.abs(rp[0])[None, :]
@@ -252,12 +266,13 @@ def run_case(case):
     for k, ((Ep, Eq), d) in enumerate(zip(Es, deltas)):
         resid["E_over_delta_conc"] = max(resid.get("E_over_delta_conc", 0.0), Ep / d)
         resid["E_over_delta_flux"] = max(resid.get("E_over_delta_flux", 0.0), Eq / d)
-        if Ep > 2 * d or Eq > 2 * d:
-            viol.append(dict(what="error_not_a_small_multiple_of_layer_thickness", refinement=k, E=(Ep, Eq), delta=d, **ctx))
+        if Ep > 2 * d + allow[k][0] or Eq > 2 * d + allow[k][1]:
+            viol.append(dict(what="error_not_a_small_multiple_of_layer_thickness", refinement=k, E=(Ep, Eq), delta=d, precision=prec,
+                             storage_allowance=allow[k], **ctx))
     for k in range(1, len(Es)):
         for nm, j in (("conc", 0), ("flux", 1)):
             a, b_ = Es[k - 1][j], Es[k][j]
-            bound = max(a / 2.5, 0.1 * deltas[k])
+            bound = max(a / 2.5, 0.1 * deltas[k]) + allow[k][j]
             if b_ > 0.1 * deltas[k] and a > 0:  # ratio clause active
                 resid[f"fine_over_coarse_{nm}"] = max(resid.get(f"fine_over_coarse_{nm}", 0.0), b_ / a)
             if b_ > bound:
@@ -266,7 +281,7 @@ def run_case(case):
         viol.append(dict(hviol, **ctx))
     Gmax = float(np.max(G[good]))
     b = {f"halo_clause:{halo_note}": 1, f"max_growth_compared:{'<6' if Gmax < 6 else '6-12' if Gmax < 12 else '12-15' if Gmax < 15 else '15-18'}": 1,
-         f"veer:{'yes' if fam.d.get('veer') else 'no'}": 1, f"extent:{'>60km' if max(dom) > 6e4 else '<=60km'}": 1, f"wind:{fam.d['wind']}": 1, f"K:{fam.d['K']}": 1, f"grid:{gridk}": 1, f"n0:{n0}": 1, f"refinements:{len(mults)}": 1}
+         f"veer:{'yes' if fam.d.get('veer') else 'no'}": 1, f"extent:{'>60km' if max(dom) > 6e4 else '<=60km'}": 1, f"wind:{fam.d['wind']}": 1, f"K:{fam.d['K']}": 1, f"grid:{gridk}": 1, f"n0:{n0}": 1, f"refinements:{len(mults)}": 1, f"precision:{prec}": 1}
     return {"evals": len(mults) * nmodes * 3 * 2, "nontrivial": True, "sig": f"{case['idx']}", "buckets": b, "resid": resid,
             "counters": {"solver_calls": len(mults), "riccati_integrations": 1, "modes_compared": nmodes,
                          "modes_skipped_by_precondition": int((~good).sum())},
